@@ -34,6 +34,10 @@ THEOREMS = [
     "C18_tick_roundtrip",
     "C18_tick_norm_spec",
     "C18_tick_roundtrip_exact",
+    "C18_public_result_roundtrip",
+    "C18_public_result_tick",
+    "C18_dump_accessor_raw",
+    "C18_dump_accessor_value_refuted",
 ]
 LEAN_TARGETS = ["WfProps.C18"]
 EXPLANATION = (
@@ -45,10 +49,14 @@ EXPLANATION = (
     "qualified-name fallback and the bare start-event form, the exception envelope, and the WorkflowTick / "
     "StepFunctionResult unions interpreted from field tables regenerated from ticks.py/results.py. Theorems for all "
     "payloads and all class shapes: decode(encode e) = e on each path; every tick kind; exception envelope in both "
-    "branches. Tie: C18_source_shape / C18_tick_tables pin the regenerated rule summaries and tables; op-by-op "
+    "branches; for every `_get_result` override (Accessor: wrap, combine with typed/dynamic fields, aggregate, project, "
+    "default, compositions via super()) `.result` after each path = `.result` before, and a serializer writing the "
+    "accessor's value instead of the raw payload is refuted. Tie: C18_source_shape / C18_tick_tables pin the regenerated rule summaries and tables; op-by-op "
     "correspondence of the real code against the compiled model on dynamically created classes, generated payloads, "
     "ticks, exceptions and malformed wire data. Search: monitors compare class, typed fields, dynamic fields and "
-    "result directly on real objects after each real round trip."
+    "result directly on real objects after each real round trip; for StopEvent classes (45% with a generated "
+    "`_get_result` override) the restored raw payload and the restored `.result` are judged against an oracle computed "
+    "from the constructor inputs."
 )
 LEVEL_TEXT = "proof (all JSON payloads, all class shapes, all tick kinds) + correspondence + implementation-side monitors"
 ASSUMPTIONS = [
@@ -60,6 +68,9 @@ ASSUMPTIONS = [
     "floats are opaque tokens (repr of finite floats): NaN/inf are outside the quantifier (typed float fields dump them as null)",
     "dynamic fields and StopEvent results hold JSON values; a pydantic model or Event stored *inside* _data or as a "
     "result is dumped to a plain dict by pydantic and comes back as a dict (outside 'JSON-representable payloads')",
+    "`_get_result` overrides are pure, total functions of the instance (raw payload, JSON-typed typed fields, dynamic "
+    "fields) with JSON values: the generated shapes are wrap / combine / size / total / first / default and their "
+    "compositions through super(); overrides with side effects or reading state outside the event are outside the model",
     "class shapes are those pydantic accepts and that can be instantiated: no field called self/_x, a StopEvent "
     "subclass does not redeclare `result`; typed fields of type SerializableEvent / datetime (StepFailedEvent) are "
     "not in the model's type language: StepFailedEvent is covered by the monitors only",
@@ -233,6 +244,92 @@ def ty_tokens(t: list) -> str:
     raise ValueError(k)
 
 
+# --------------------------------------------------------------------------
+# result accessors: bodies of `StopEvent._get_result` overrides ("This can be overridden by subclasses to return the
+# desired result").  A class spec may carry "getres": {"k": kind, ..., "super": bool}; "super" = the override works on
+# `super()._get_result()` instead of `self._result`.  `acc_apply` is the body; the real method feeds it from the real
+# object, the oracle (`expected_public`) feeds it from the constructor inputs of the scenario.
+
+
+def acc_apply(g: dict, raw: Any, typed_get: Any, dyn_get: Any) -> Any:
+    k = g["k"]
+    if k == "list":
+        return [raw]
+    if k == "obj":
+        return {g["key"]: raw, g["tagkey"]: g["tag"]}
+    if k == "field":
+        return {g["key"]: raw, g["field"]: typed_get(g["field"])}
+    if k == "dyn":
+        return {g["key"]: raw, g["dyn"]: dyn_get(g["dyn"])}
+    if k == "size":
+        return len(raw) if isinstance(raw, (list, dict, str)) else -1
+    if k == "total":
+        return sum(x for x in raw if type(x) is int) if isinstance(raw, list) else 0
+    if k == "first":
+        return raw[0] if isinstance(raw, list) and raw else None
+    if k == "default":
+        return raw if raw is not None else g["d"]
+    raise ValueError(k)
+
+
+def acc_tokens(chain: list[dict]) -> str:
+    items = []
+    for g in chain:
+        k = g["k"]
+        if k == "obj":
+            items.append(f"obj:{cps(g['key'])}:{cps(g['tagkey'])}:{tok(g['tag'])}")
+        elif k == "field":
+            items.append(f"field:{cps(g['key'])}:{cps(g['field'])}")
+        elif k == "dyn":
+            items.append(f"dyn:{cps(g['key'])}:{cps(g['dyn'])}")
+        elif k == "default":
+            items.append(f"default:{tok(g['d'])}")
+        else:
+            items.append(k)
+    return ";".join(items)
+
+
+def chain_of(parent_chain: list[dict], g: dict | None) -> list[dict]:
+    if not g:
+        return list(parent_chain)
+    return (list(parent_chain) if g.get("super") else []) + [g]
+
+
+def expected_public(chain: list[dict], inst: dict) -> Any:
+    """what `.result` must report, from the constructor inputs alone"""
+    raw = inst.get("result")
+    for g in chain:
+        raw = acc_apply(g, raw, lambda n: inst["typed"][n], lambda k: inst.get("data", {}).get(k))
+    return raw
+
+
+def json_ty(t: list) -> bool:
+    """typed values of this type are JSON values as they stand (python value = dump form)"""
+    k = t[0]
+    if k in ("model", "exc"):
+        return False
+    if k in ("opt", "list", "dict"):
+        return json_ty(t[1])
+    return True
+
+
+class Diff(str):
+    """what differs (used in signatures) + the concrete values"""
+
+    detail = ""
+
+
+def diff(word: str, detail: str = "") -> Diff:
+    d = Diff(word)
+    d.detail = detail
+    return d
+
+
+def dtext(d: Any) -> str:
+    t = getattr(d, "detail", "")
+    return f" ({t})" if t else ""
+
+
 class Universe:
     """The classes of one scenario, built as real pydantic classes in fresh modules."""
 
@@ -246,6 +343,9 @@ class Universe:
         self.fields: dict[str, list[dict]] = {}  # all fields incl. inherited, declaration order
         self.mods: list[str] = []
         self.nested: dict[str, type] = {}
+        self.chain: dict[str, list[dict]] = {}  # effective `_get_result` override chain per class id ([] = base class)
+        self.inst_of: dict[int, dict] = {}  # id(real object built by `make`) -> the scenario instance it was built from
+        self.keep: list[Any] = []  # keeps those objects alive (ids stay unique)
         Universe.counter += 1
         self.tag = f"c18gen{Universe.counter}"
         for s in specs:
@@ -259,6 +359,7 @@ class Universe:
             self.order.append(lid)
             self.cls[lid] = c
             self.fields[lid] = fs
+            self.chain[lid] = []
 
     # python annotation for a type tree
     def ann(self, t: list) -> Any:
@@ -317,6 +418,18 @@ class Universe:
         for f in s["fields"]:
             if "default" in f:
                 ns[f["name"]] = self.pyval(f["ty"], f["default"])
+        g = s.get("getres")
+        if g and issubclass(base, E.StopEvent):
+            inner = base._get_result if g.get("super") else None
+
+            def _get_result(self: Any, _g: dict = g, _inner: Any = inner) -> Any:
+                raw = _inner(self) if _inner is not None else self._result
+                return acc_apply(_g, raw, lambda n: getattr(self, n), self.get)
+
+            ns["_get_result"] = _get_result
+        else:
+            g = None
+        self.chain[s["id"]] = chain_of(self.chain.get(base_name, []), g)
         cls = type(s["name"], (base,), ns)
         if s.get("local"):
             cls.__qualname__ = f"factory.<locals>.{s['name']}"
@@ -427,7 +540,15 @@ class Universe:
                     box.update(val)
         for k, v in inst.get("data", {}).items():
             ev[k] = v
+        self.inst_of[id(ev)] = inst
+        self.keep.append(ev)
         return ev
+
+    def chain_for(self, c: type) -> list[dict]:
+        for cid in self.order:
+            if self.cls[cid] is c:
+                return self.chain.get(cid, [])
+        return []
 
     def typed_of(self, ev: Any, skip_exc: bool = False) -> dict:
         cid = self.cid_of(type(ev))
@@ -692,17 +813,43 @@ BASES = ["Event", "Event", "StartEvent", "StopEvent", "StopEvent", "InputRequire
 
 
 def class_meta(specs: list[dict]) -> dict[str, dict]:
-    """per class id: all fields (inherited first), whether it is a StopEvent / a plain model / a start event"""
+    """per class id: all fields (inherited first), whether it is a StopEvent / a plain model / a start event, and the
+    effective chain of `_get_result` overrides"""
     meta: dict[str, dict] = {}
     for sp in specs:
         b = sp["base"]
         if b in meta:
             m = meta[b]
-            meta[sp["id"]] = {"fields": m["fields"] + sp["fields"], "stop": m["stop"], "plain": m["plain"], "start": m["start"]}
+            meta[sp["id"]] = {"fields": m["fields"] + sp["fields"], "stop": m["stop"], "plain": m["plain"], "start": m["start"],
+                              "chain": chain_of(m["chain"], sp.get("getres") if m["stop"] else None)}
         else:
             meta[sp["id"]] = {"fields": list(sp["fields"]), "stop": b == "StopEvent", "plain": b == "BaseModel",
-                              "start": b == "StartEvent"}
+                              "start": b == "StartEvent", "chain": chain_of([], sp.get("getres") if b == "StopEvent" else None)}
     return meta
+
+
+RESULT_KEYS = ["payload", "value", "raw", "result", "data", "source", "n", "_data", ""]
+
+
+def gen_getres(rng, fields: list[dict]) -> dict:
+    """an override of `_get_result` that is not the identity on the raw payload: wrapping, combining with a typed or a
+    dynamic field, aggregating, projecting, defaulting; on top of `self._result` or of `super()._get_result()`"""
+    jf = [f["name"] for f in fields if json_ty(f["ty"])]
+    k = rng.choice(["list", "obj", "obj", "field", "field", "dyn", "size", "total", "first", "default"])
+    if k == "field" and not jf:
+        k = "obj"
+    g: dict[str, Any] = {"k": k}
+    if k == "obj":
+        g.update(key=rng.choice(RESULT_KEYS), tagkey=rng.choice(["source", "kind", "v", "payload"]), tag=gen_json(rng, 1))
+    elif k == "field":
+        g.update(key=rng.choice(RESULT_KEYS), field=rng.choice(jf))
+    elif k == "dyn":
+        g.update(key=rng.choice(RESULT_KEYS), dyn=rng.choice(KEYS))
+    elif k == "default":
+        g["d"] = rng.choice(["n/a", 0, [], {"empty": True}])
+    if rng.random() < 0.3:
+        g["super"] = True
+    return g
 
 
 def gen_classes(rng) -> list[dict]:
@@ -717,7 +864,8 @@ def gen_classes(rng) -> list[dict]:
             base = rng.choice([sp["id"] for sp in specs])
         elif rng.random() < 0.06:
             base = "BaseModel"
-        inherited = meta[base] if base in meta else {"fields": [], "stop": base == "StopEvent", "plain": base == "BaseModel"}
+        inherited = meta[base] if base in meta else {"fields": [], "stop": base == "StopEvent", "plain": base == "BaseModel",
+                                                      "chain": []}
         taken = {f["name"] for f in inherited["fields"]}
         names = [x for x in FIELD_NAMES if x not in taken]
         if not inherited["stop"] and "result" not in taken and rng.random() < 0.15:
@@ -736,6 +884,8 @@ def gen_classes(rng) -> list[dict]:
         spec = {"id": cid, "base": base, "name": name, "module": rng.choice(["a", "a", "b", "pkg.sub"]), "fields": fields}
         if rng.random() < 0.08:
             spec["local"] = True
+        if inherited["stop"] and rng.random() < (0.3 if inherited["chain"] else 0.45):
+            spec["getres"] = gen_getres(rng, inherited["fields"] + fields)
         specs.append(spec)
     return specs
 
@@ -768,6 +918,8 @@ def gen_inst(rng, cid: str, m: dict) -> dict:
         inst["unset"] = unset
     if m["stop"]:
         inst["result"] = None if rng.random() < 0.3 else gen_json(rng, 3)
+        if m.get("chain") and rng.random() < 0.6:  # payloads the aggregating / projecting accessors do something with
+            inst["result"] = [gen_int(rng) if rng.random() < 0.7 else gen_json(rng, 1) for _ in range(rng.randint(1, 4))]
     return inst
 
 
@@ -870,6 +1022,14 @@ def ok_inst(U: Universe, ev: Any) -> str:
     if isinstance(ev, E.Event) and not isinstance(ev._data, dict):
         return "err data-not-dict"
     return "ok " + cstr(U.desc(ev))
+
+
+def pub_answer(f: Any) -> str:
+    """`.result` of a real object in the driver's answer form"""
+    try:
+        return "ok " + cstr(f())
+    except Exception as e:  # noqa: BLE001
+        return "err raised-" + type(e).__name__
 
 
 def real(I: dict, f: Any) -> Any:
@@ -979,9 +1139,46 @@ def same_event(U: Universe, a: Any, b: Any) -> str | None:
     if isinstance(a, E.Event):
         if not isinstance(b._data, dict) or not jeq(a._data, b._data):
             return "dynamic_fields"
-    if isinstance(a, E.StopEvent) and not jeq(a._result, b._result):
-        return "result"
+    if isinstance(a, E.StopEvent):
+        return result_issue(U, a, b)
     return None
+
+
+def short(v: Any, n: int = 160) -> str:
+    r = repr(v)
+    return r if len(r) <= n else r[: n - 3] + "..."
+
+
+def result_issue(U: Universe, a: Any, b: Any) -> Diff | None:
+    """"an equal result": the raw payload the restored event holds and what its `.result` reports, both against an oracle
+    computed from the constructor inputs of the scenario (never from state the code under test wrote)"""
+    inst = U.inst_of.get(id(a))
+    chain = U.chain_for(type(a))
+    if inst is not None:
+        raw_exp, pub_exp = inst.get("result"), expected_public(chain, inst)
+    else:  # an event the harness built directly from a library class (base accessor)
+        raw_exp = pub_exp = a._result
+    parts = []
+    raw_back = getattr(b, "_result", None)
+    if not jeq(raw_back, raw_exp):
+        parts.append("payload")
+    try:
+        pub_back = b.result
+        if not jeq(pub_back, pub_exp):
+            parts.append("accessor_value")
+        seen = short(pub_back)
+    except Exception as e:  # noqa: BLE001 - an override applied to something it was not written for
+        parts.append("accessor_raised:" + type(e).__name__)
+        seen = f"raised {type(e).__name__}: {str(e)[:80]}"
+    if not parts:
+        return None
+    detail = (f"constructed with result={short(raw_exp)}; restored event holds _result={short(raw_back)} and .result "
+              f"reports {seen}, expected {short(pub_exp)}")
+    if not chain:
+        return diff("result" if parts == ["payload", "accessor_value"] or parts == ["payload"] else
+                    "result:base_get_result[" + "+".join(parts) + "]", detail)
+    kinds = "+".join(g["k"] + (":super" if g.get("super") else "") for g in chain)
+    return diff("result:overridden_get_result[" + "+".join(parts) + "]", detail + f"; _get_result override: {kinds}")
 
 
 def kind_word(U: Universe, ev: Any) -> str:
@@ -1067,13 +1264,30 @@ def _run_scenario(I: dict, sc: dict, tr: Trace, U: Universe, mrng: Any) -> None:
             else:
                 d = same_event(U, ev, r1[1]) if isinstance(r1[1], I["BaseModel"]) else "class"
                 if d:
-                    V(f"json_roundtrip/{d}/{kw}", f"JsonSerializer round trip changed {d} of a {kw} instance", instance=idx)
+                    V(f"json_roundtrip/{d}/{kw}", f"JsonSerializer round trip changed {d} of a {kw} instance{dtext(d)}", instance=idx)
                 else:
                     for c in U.exc_issues(ev, r1[1]):
                         V(f"exception/{c}", f"exception in a typed field after the JSON round trip: {c}", instance=idx)
         if kw == "plain":
             continue
         events.append(ev)
+        chain = U.chain[cid]
+        if kw == "stop":
+            # ---- `.result` as callers read it (class may override `_get_result`): straight from the constructor and
+            # after each path, against the model's accessor on the model's own round trip
+            tr.count("get_result:" + ("base" if not chain else "+".join(g["k"] for g in chain)))
+            acc = acc_tokens(chain)
+            pub0 = pub_answer(lambda: ev.result)
+            tr.op(f"pub|{acc}|{fields}", pub0[3:] if pub0.startswith("ok ") else pub0)
+            exp = expected_public(chain, inst)
+            if pub0 != "ok " + cstr(exp):
+                V("stop_result_accessor/constructed_instance",
+                  f"a stop event straight from its constructor reports .result {pub0}, expected {short(exp)}", instance=idx)
+            if imp:
+                tr.op(f"pubrt1|{acc}|{fields}", pub_answer(lambda: r1[1].result) if r1[0] == "ok" else "err " + r1[1])
+                r5 = real(I, lambda: T.WorkflowTickAdapter.validate_python(jrt(T.WorkflowTickAdapter.dump_python(
+                    T.TickPublishEvent(event=ev), mode="json"))))
+                tr.op(f"pubrt3|{acc}|{fields}", pub_answer(lambda: [r5[1].event.result]) if r5[0] == "ok" else "err " + r5[1])
         # ---- path 2: server -> client
         meta = SE.EventEnvelopeWithMetadata.from_event(ev, include_qualified_name=qn)
         wire2 = meta.model_dump_json()
@@ -1084,13 +1298,16 @@ def _run_scenario(I: dict, sc: dict, tr: Trace, U: Universe, mrng: Any) -> None:
         resolves = reg_dict.get(name) is type(ev) or (name not in reg_dict and qn and imp)
         tr.count("envelope-resolves:" + ("registry" if reg_dict.get(name) is type(ev) else "qualified-name" if resolves else
                                          "other-class-of-same-name" if name in reg_dict else "nothing"))
+        if resolves and kw == "stop":
+            tr.op(f"pubrt2|{acc}|{fields}|{1 if qn else 0}|{','.join(reg_ids)}",
+                  pub_answer(lambda: r2[1].result) if r2[0] == "ok" else "err " + r2[1])
         if resolves:
             if r2[0] == "err":
                 V(f"envelope_roundtrip/raised:{r2[1]}/{kw}", f"load_event raised {r2[1]} although the class resolves", instance=idx)
             else:
                 d = same_event(U, ev, r2[1])
                 if d:
-                    V(f"envelope_roundtrip/{d}/{kw}", f"EventEnvelopeWithMetadata round trip changed {d} of a {kw} instance", instance=idx)
+                    V(f"envelope_roundtrip/{d}/{kw}", f"EventEnvelopeWithMetadata round trip changed {d} of a {kw} instance{dtext(d)}", instance=idx)
         # ---- path 2: client -> server
         env = jrt(SE.EventEnvelope.from_event(ev).model_dump())
         tr.op("env2|" + fields, cstr(env))
@@ -1102,7 +1319,7 @@ def _run_scenario(I: dict, sc: dict, tr: Trace, U: Universe, mrng: Any) -> None:
             else:
                 d = same_event(U, ev, r3[1])
                 if d:
-                    V(f"envelope_send/{d}/{kw}", f"EventEnvelope round trip changed {d} of a {kw} instance", instance=idx)
+                    V(f"envelope_send/{d}/{kw}", f"EventEnvelope round trip changed {d} of a {kw} instance{dtext(d)}", instance=idx)
         # ---- bare form
         bare = jrt(ev.model_dump(mode="json"))
         r4 = real(I, lambda: SE.EventEnvelope.parse(jrt(bare), dict(reg_dict), explicit_event=type(ev)))
@@ -1116,7 +1333,7 @@ def _run_scenario(I: dict, sc: dict, tr: Trace, U: Universe, mrng: Any) -> None:
             else:
                 d = same_event(U, ev, r4[1])
                 if d:
-                    V(f"bare_start/{d}/{kw}", f"bare dump round trip changed {d} of a {kw} instance", instance=idx)
+                    V(f"bare_start/{d}/{kw}", f"bare dump round trip changed {d} of a {kw} instance{dtext(d)}", instance=idx)
         # ---- malformed wire data derived from this instance (one mutation each)
         if r1[0] == "ok":  # exactly one defect per malformed object
             malformed_event(I, U, tr, mrng, ev, cid, json.loads(wire1), json.loads(wire2), env, reg_ids, reg_dict, reg_arg)
@@ -1204,6 +1421,13 @@ def build_ticks(I: dict, U: Universe, events: list[Any], excs: list[BaseExceptio
                             timeout=t if len(events) % 3 else None, event_type=type(e1)),
                 R.DeleteWaiter(waiter_id="w")]
     ticks.append(T.TickStepResult(step_name=s.get("step", "s"), worker_id=s.get("worker", 0), event=e0, result=results))
+    # stop events whose class overrides `_get_result`: published and as a step's return value
+    over = [e for e in events if isinstance(e, E.StopEvent) and U.chain_for(type(e))][:2]
+    for e in over:
+        if e is not e1:
+            ticks.append(T.TickPublishEvent(event=e))
+        ticks.append(T.TickStepResult(step_name=s.get("step", "s"), worker_id=s.get("worker", 0), event=e0,
+                                      result=[R.StepWorkerResult(result=e)]))
     # the library's own failure events
     for x in excs[:1]:
         ticks.append(T.TickPublishEvent(event=E.WorkflowFailedEvent(step_name="s", exception=x, attempts=2, elapsed_seconds=t)))
@@ -1252,7 +1476,7 @@ def monitor_tick(U: Universe, t: Any, back: Any, V: Any) -> None:
                 else:
                     d = same_event(U, vx, vy)
                     if d:
-                        V(f"tick_roundtrip/{d}/{kind_word(U, vx)}", f"{where}.{name}: {d} changed in a {tag} tick", tick=tag)
+                        V(f"tick_roundtrip/{d}/{kind_word(U, vx)}", f"{where}.{name}: {d} changed in a {tag} tick{dtext(d)}", tick=tag)
                     if not d:
                         for c in U.exc_issues(vx, vy):
                             V(f"exception/{c}", f"{where}.{name}: exception in a typed field of {type(vx).__name__}: {c}", tick=tag)
@@ -1484,6 +1708,16 @@ def malformed_tick(I: dict, U: Universe, tr: Trace, rng: Any, wire: dict) -> Non
 # corpus (runs first on every run) and library events
 
 
+def _corpus_file(name: str) -> dict:
+    import os
+
+    with open(os.path.join(os.path.dirname(os.path.dirname(os.path.abspath(__file__))), "corpus", name)) as f:
+        return json.load(f)["payload"]["case"]
+
+
+OVERRIDDEN_GET_RESULT = _corpus_file("c18_overridden_get_result.json")
+
+
 def corpus() -> list[dict]:
     def sc(classes: list[dict], instances: list[dict], exceptions: list[dict] | None = None, registry: list[str] | None = None,
            include_qn: bool = True, req: dict | None = None) -> dict:
@@ -1533,6 +1767,8 @@ def corpus() -> list[dict]:
         # an exception in a typed field
         sc([{"id": "C0", "base": "Event", "name": "Failed", "module": "a", "fields": [{"name": "exception", "ty": ["exc"]}, {"name": "n", "ty": ["int"]}]}],
            [{"cls": "C0", "typed": {"exception": {"$exc": {"k": "Plain", "args": ["typed"]}}, "n": 1}, "data": {"why": "x"}}]),
+        # StopEvent subclasses overriding `_get_result` (wrap with a typed field, sum, list around super(), default)
+        OVERRIDDEN_GET_RESULT,
     ]
 
 
@@ -1604,6 +1840,8 @@ def run(env: Env) -> Outcome:
                 "with typed fields of the type language, 1-2 instances each with generated JSON payloads as typed values, "
                 "dynamic fields (keys incl. _data/result/_result/self/class_name/marker keys) and results; 1-3 exceptions "
                 "(builtin, importable custom, local, nested, multi-arg, keyword-only, raising constructors, custom __str__); "
+                "StopEvent classes with a generated _get_result override (wrap / typed or dynamic field / size / total / "
+                "first / default, on self._result or on super()._get_result()); "
                 "a registry subset; every instance goes through the three real paths and all eight tick kinds; one mutation "
                 "of each wire form. non-trivial = an instance that reached the real serializers; distinct by scenario content")
     try:
